@@ -7,6 +7,7 @@ annotations - is wrapped in ``sorted`` or is one of the reviewed order-insensiti
 (membership, set algebra, writes to keys that already exist); ``next(iter(s))`` only on
 singletons; no id(), hash() or random on the compile path.
 Also: the reviewed order-insensitive iteration in branch_update is re-checked against its premise.  
+Also: a folded output constant is written only when has_safe_repr holds (no memory addresses in the source); no class-level container of a compile-path class is filled through self.  
 Not decided: determinism of user-supplied extensions and filters.
 """
 
